@@ -24,6 +24,10 @@ func runC18(c *Ctx) {
 	c14Reset(c) // Extension.Reset (rule id C14.reset is reported under this property too)
 	readerReadRules(c, "C18")
 	readerDiscardRules(c, "C18")
+	// what NextFrame installs for the next message must not depend on the previous one
+	readerNextFrameRules(c, "C18")
+	c02Streams(c)
+	c12Cbuf(c)
 }
 
 func fieldNames(st *types.Struct) []string {
